@@ -109,12 +109,13 @@ def run_serve_aio(cfg: Dict[str, Any], programs: Dict[str, list],
                 loop._vtime = target
             return r
 
-        def start_server(self) -> None:
+        def start_server(self, callable_trigger: bool = True) -> None:
             from hypercorn.asyncio import serve
 
             async def run() -> None:
                 try:
-                    await serve(self.app, self.config, shutdown_trigger=self.trigger.wait)
+                    await serve(self.app, self.config,
+                                shutdown_trigger=self.trigger.wait if callable_trigger else None)
                 except asyncio.CancelledError:
                     raise
                 except BaseException as e:
@@ -255,12 +256,13 @@ def run_serve_trio(cfg: Dict[str, Any], programs: Dict[str, list],
             await trio.testing.wait_all_tasks_blocked()
             return "horizon"
 
-        def start_server(self) -> None:
+        def start_server(self, callable_trigger: bool = True) -> None:
             from hypercorn.trio import serve
 
             async def run() -> None:
                 try:
-                    await serve(self.app, self.config, shutdown_trigger=self.trigger.wait)
+                    await serve(self.app, self.config,
+                                shutdown_trigger=self.trigger.wait if callable_trigger else None)
                 except trio.Cancelled:
                     raise
                 except BaseException as e:
